@@ -77,7 +77,7 @@ def sampler_trace(inst, a0, kind, n_steps, seed):
     cur = {}
     o_g, o_m, o_c, o_cs = M.gibbs_options, M.mh_options, M.random_choice, M.compound_step
 
-    def wrap(f):
+    def wrap(f, reverse):
         def inner(**kw):
             before = [int(x) for x in kw["genotype_alleles"]]
             f(**kw)
@@ -86,6 +86,19 @@ def sampler_trace(inst, a0, kind, n_steps, seed):
             cur.update({"op": "update", "k": int(kw["variable_allele"]), "a": before,
                         "lq": [q6(math.exp(x - ll.max())) for x in ll],
                         "pq": [q6(x) for x in kw["probabilities_array"]], "llmax": float(ll.max())})
+            if reverse:
+                # probability of each reverse move v_b -> v (same position), for the detailed-balance clause
+                k = int(kw["variable_allele"])
+                rq = []
+                t1, t2, t3 = np.full(K, np.nan), np.full(K, np.nan), np.full(K, np.nan)
+                for b in range(K):
+                    g2 = np.array(before, dtype=np.int64)
+                    g2[k] = b
+                    f(genotype_alleles=g2, variable_allele=k, haplotypes=kw["haplotypes"], reads=kw["reads"],
+                      read_counts=kw["read_counts"], inbreeding=kw["inbreeding"], llks_array=t1, lpriors_array=t2,
+                      probabilities_array=t3, frequencies=kw["frequencies"], llk_cache=None)
+                    rq.append(q6(t3[before[k]]))
+                cur["rq"] = rq
         return inner
 
     def choice(p):
@@ -102,7 +115,7 @@ def sampler_trace(inst, a0, kind, n_steps, seed):
                    "retq": q6(math.exp(float(ret) - last["llmax"]))})
         return ret
 
-    M.gibbs_options, M.mh_options, M.random_choice, M.compound_step = wrap(o_g), wrap(o_m), choice, cstep
+    M.gibbs_options, M.mh_options, M.random_choice, M.compound_step = wrap(o_g, False), wrap(o_m, True), choice, cstep
     try:
         np.random.seed(seed)
         M.mcmc_sampler(genotype_alleles=np.array(a0, dtype=np.int64), haplotypes=H, reads=reads, read_counts=counts,
